@@ -28,10 +28,12 @@ Definition v_serial (v : version) : Z := v_soa v mod two32.
 
 Definition ttl_ok (t : Z) : Prop := 0 <= t <= 2147483647.
 
-(* an RRset of the zone other than the SOA: owner at or below the origin, a non-empty set *)
+(* an RRset of the zone other than the SOA: owner at or below the origin, a non-empty set; its type is
+   not one of the other singleton types (NXT, DNAME, NSEC, CNAME), whose replace-on-add semantics the
+   theorems do not cover *)
 Definition entry_wf (ke : key * entry) : Prop :=
   let '((n, t, c), (ttl, ds)) := ke in
-  0 <= n /\ t <> tSOA /\ ttl_ok ttl /\ ds <> [] /\ ssorted ds.
+  0 <= n /\ t <> tSOA /\ ttl_ok ttl /\ ds <> [] /\ ssorted ds /\ is_singleton t = false.
 
 Definition rest_wf (z : zone) : Prop := NoDup (map fst z) /\ Forall entry_wf z.
 Definition version_wf (v : version) : Prop := ttl_ok (v_ttl v) /\ rest_wf (v_rest v).
